@@ -107,7 +107,7 @@ def gen_case(prng: Prng, tier: str) -> dict:
 
 
 def gen_cases(tier: str, verif_seed: int, runs: int | None = None) -> list[dict]:
-    n = runs if runs is not None else (1500 if tier == "quick" else 60000)
+    n = runs if runs is not None else (1000 if tier == "quick" else 60000)
     return [gen_case(Prng(mix(verif_seed, PROP, i)), tier) for i in range(n)]
 
 
